@@ -2,4 +2,212 @@
 import Pk.Model.Recover
 namespace Pk.Proofs.Recover
 open Pk.Recover
+
+theorem pickState_append (a b : List StateFile) (best : Option StateFile) :
+    pickState (a ++ b) best = pickState b (pickState a best) := by
+  induction a generalizing best with
+  | nil => simp [pickState]
+  | cons f fs ih =>
+    simp only [List.cons_append, pickState]
+    split
+    · exact ih _
+    · split
+      · exact ih _
+      · split <;> exact ih _
+
+theorem pickState_unparsable (f : StateFile) (fs : List StateFile) (best : Option StateFile)
+    (h : f.parsable = false) : pickState (f :: fs) best = pickState fs best := by
+  simp [pickState, h]
+
+theorem pickState_parsable_none (f : StateFile) (fs : List StateFile)
+    (h : f.parsable = true) : pickState (f :: fs) none = pickState fs (some f) := by
+  simp [pickState, h]
+
+theorem pickState_parsable_some (f b : StateFile) (fs : List StateFile)
+    (h : f.parsable = true) :
+    pickState (f :: fs) (some b) =
+      if f.saved < b.saved then pickState fs (some b) else pickState fs (some f) := by
+  simp [pickState, h]
+
+/-- the result is the accumulator or a parsable member of the list -/
+theorem pickState_mem (fs : List StateFile) (best : Option StateFile) (r : StateFile)
+    (h : pickState fs best = some r) : best = some r ∨ (r ∈ fs ∧ r.parsable = true) := by
+  induction fs generalizing best with
+  | nil => left; simpa [pickState] using h
+  | cons f fs ih =>
+    cases hp : f.parsable with
+    | false =>
+      rw [pickState_unparsable _ _ _ hp] at h
+      rcases ih _ h with h' | ⟨h1, h2⟩
+      · exact Or.inl h'
+      · exact Or.inr ⟨List.mem_cons_of_mem _ h1, h2⟩
+    | true =>
+      cases best with
+      | none =>
+        rw [pickState_parsable_none _ _ hp] at h
+        rcases ih _ h with h' | ⟨h1, h2⟩
+        · right
+          have : f = r := by simpa using h'
+          subst this
+          exact ⟨List.mem_cons_self, hp⟩
+        · exact Or.inr ⟨List.mem_cons_of_mem _ h1, h2⟩
+      | some b =>
+        rw [pickState_parsable_some _ _ _ hp] at h
+        split at h
+        · rcases ih _ h with h' | ⟨h1, h2⟩
+          · exact Or.inl h'
+          · exact Or.inr ⟨List.mem_cons_of_mem _ h1, h2⟩
+        · rcases ih _ h with h' | ⟨h1, h2⟩
+          · right
+            have : f = r := by simpa using h'
+            subst this
+            exact ⟨List.mem_cons_self, hp⟩
+          · exact Or.inr ⟨List.mem_cons_of_mem _ h1, h2⟩
+
+/-- a `some` accumulator never turns into `none` -/
+theorem pickState_some_isSome (fs : List StateFile) (b : StateFile) :
+    (pickState fs (some b)).isSome = true := by
+  induction fs generalizing b with
+  | nil => simp [pickState]
+  | cons f fs ih =>
+    cases hp : f.parsable with
+    | false => rw [pickState_unparsable _ _ _ hp]; exact ih b
+    | true =>
+      rw [pickState_parsable_some _ _ _ hp]
+      split
+      · exact ih b
+      · exact ih f
+
+/-- the result dominates the accumulator and every parsable member -/
+theorem pickState_max (fs : List StateFile) (best : Option StateFile) (r : StateFile)
+    (h : pickState fs best = some r) :
+    (∀ b, best = some b → b.saved ≤ r.saved) ∧ (∀ f ∈ fs, f.parsable = true → f.saved ≤ r.saved) := by
+  induction fs generalizing best with
+  | nil =>
+    simp only [pickState] at h
+    subst h
+    simp
+  | cons f fs ih =>
+    cases hp : f.parsable with
+    | false =>
+      rw [pickState_unparsable _ _ _ hp] at h
+      obtain ⟨h1, h2⟩ := ih _ h
+      refine ⟨h1, ?_⟩
+      intro g hg hgp
+      rcases List.mem_cons.mp hg with rfl | hg
+      · simp [hp] at hgp
+      · exact h2 g hg hgp
+    | true =>
+      cases best with
+      | none =>
+        rw [pickState_parsable_none _ _ hp] at h
+        obtain ⟨h1, h2⟩ := ih _ h
+        refine ⟨by simp, ?_⟩
+        intro g hg hgp
+        rcases List.mem_cons.mp hg with rfl | hg
+        · exact h1 _ rfl
+        · exact h2 g hg hgp
+      | some b =>
+        rw [pickState_parsable_some _ _ _ hp] at h
+        split at h
+        · obtain ⟨h1, h2⟩ := ih _ h
+          refine ⟨h1, ?_⟩
+          intro g hg hgp
+          rcases List.mem_cons.mp hg with rfl | hg
+          · have := h1 b rfl
+            omega
+          · exact h2 g hg hgp
+        · obtain ⟨h1, h2⟩ := ih _ h
+          refine ⟨?_, ?_⟩
+          · intro b' hb'
+            have : b = b' := by simpa using hb'
+            subst this
+            have := h1 f rfl
+            omega
+          · intro g hg hgp
+            rcases List.mem_cons.mp hg with rfl | hg
+            · exact h1 _ rfl
+            · exact h2 g hg hgp
+
+/-- some parsable member ⇒ a file is loaded -/
+theorem pickState_isSome_of_mem (fs : List StateFile) (best : Option StateFile) (f : StateFile)
+    (hf : f ∈ fs) (hp : f.parsable = true) : (pickState fs best).isSome = true := by
+  induction fs generalizing best with
+  | nil => cases hf
+  | cons g fs ih =>
+    cases hgp : g.parsable with
+    | false =>
+      rw [pickState_unparsable _ _ _ hgp]
+      rcases List.mem_cons.mp hf with rfl | hf
+      · simp [hgp] at hp
+      · exact ih _ hf
+    | true =>
+      cases best with
+      | none => rw [pickState_parsable_none _ _ hgp]; exact pickState_some_isSome _ _
+      | some b => exact pickState_some_isSome _ _
+
+/-- a parsable file with a stamp strictly above everything before it wins when it comes last -/
+theorem pickState_snoc_newer (ss : List StateFile) (n : StateFile) (hn : n.parsable = true)
+    (hlt : ∀ f ∈ ss, f.parsable = true → f.saved < n.saved) :
+    pickState (ss ++ [n]) none = some n := by
+  rw [pickState_append]
+  cases hq : pickState ss none with
+  | none => simp [pickState, hn]
+  | some b =>
+    rcases pickState_mem _ _ _ hq with h | ⟨h1, h2⟩
+    · cases h
+    · have := hlt b h1 h2
+      rw [pickState_parsable_some _ _ _ hn]
+      simp only [pickState]
+      rw [if_neg (by omega)]
+
+/-- an unparsable last file is ignored -/
+theorem pickState_snoc_unparsable (ss : List StateFile) (n : StateFile) (hn : n.parsable = false)
+    (best : Option StateFile) : pickState (ss ++ [n]) best = pickState ss best := by
+  rw [pickState_append, pickState_unparsable _ _ _ hn]
+  simp [pickState]
+
+/-- a unique parsable file with the maximal stamp is the one loaded -/
+theorem pickState_unique (ss : List StateFile) (cur : StateFile) (hm : cur ∈ ss)
+    (hp : cur.parsable = true)
+    (hmax : ∀ f ∈ ss, f.parsable = true → f.saved ≤ cur.saved ∧ (f.saved = cur.saved → f = cur)) :
+    pickState ss none = some cur := by
+  have hs := pickState_isSome_of_mem ss none cur hm hp
+  cases hq : pickState ss none with
+  | none => simp [hq] at hs
+  | some r =>
+    rcases pickState_mem _ _ _ hq with h | ⟨h1, h2⟩
+    · cases h
+    · have h3 := (pickState_max _ _ _ hq).2 cur hm hp
+      obtain ⟨h4, h5⟩ := hmax r h1 h2
+      rw [h5 (by omega)]
+
+/-- `complete n` leaves files with other names alone -/
+theorem map_complete_other (ss : List StateFile) (n : Nat) (h : ∀ f ∈ ss, f.name ≠ n) :
+    (ss.map fun f => if f.name = n then { f with parsable := true } else f) = ss := by
+  induction ss with
+  | nil => rfl
+  | cons f fs ih =>
+    simp only [List.map_cons]
+    rw [if_neg (h f List.mem_cons_self), ih (fun g hg => h g (List.mem_cons_of_mem _ hg))]
+
+/-- the disk after the first operation of `saveState` -/
+theorem disk1 (ss : List StateFile) (new : StateFile) :
+    applyOp ss (.createPartial new) = ss ++ [{ new with parsable := false }] := rfl
+
+/-- the disk after the first two operations of `saveState` -/
+theorem disk2 (ss : List StateFile) (new : StateFile) (h : ∀ f ∈ ss, f.name ≠ new.name) :
+    applyOp (applyOp ss (.createPartial new)) (.complete new.name) =
+      ss ++ [{ new with parsable := true }] := by
+  simp only [applyOp, List.map_append, List.map_cons, List.map_nil, if_true]
+  rw [map_complete_other ss new.name h]
+
+/-- the disk after all three operations of `saveState` -/
+theorem disk3 (ss : List StateFile) (new : StateFile) (o : Nat) (h : ∀ f ∈ ss, f.name ≠ new.name)
+    (ho : new.name ≠ o) :
+    applyOp (applyOp (applyOp ss (.createPartial new)) (.complete new.name)) (.remove o) =
+      ss.filter (·.name ≠ o) ++ [{ new with parsable := true }] := by
+  rw [disk2 ss new h]
+  simp [applyOp, List.filter_append, ho]
+
 end Pk.Proofs.Recover
